@@ -1,16 +1,20 @@
 //! C23 "decoders of stored bytes reject corruption without crashing".
 //!
-//! Two kinds of cases (one replay line each):
-//!   dec w=<decoder> a=<args> k=<hex key> d=<len>:<fill>:<off>=<hex>,...   one decoder call on one byte string
-//!        (file headers, page header, leaf / interior / HNSW page accessors, ArrayView getters), under
-//!        catch_unwind -> compared with Model/StoredBytes.v, PageAccess.v, ArrayView.v inside Coq
+//! Four kinds of cases (one replay line each):
+//!   dec w=<decoder> a=<args> k=<hex key> d=<len>:<fill>:<off>=<hex>,...   one decoder call on one byte string,
+//!        under catch_unwind -> compared with Model/StoredBytes.v, PageAccess.v, ArrayView.v inside Coq
+//!        (file headers, page header, leaf / interior / HNSW page accessors, ArrayView getters; w=50: RecordView +
+//!        extract_row_from_record, judged by the C31 model, outcome class only)
 //!   fk k=<hex key> d=<desc>      EXPLORATION, no model: LeafNode::from_page + find_key on a corrupted leaf page
+//!   jb d=<desc>                  EXPLORATION, no model: JsonbView::new + as_value + full walk on corrupted JSONB bytes
 //!   db t=<template> f=<file> e=<edits>   EXPLORATION, no model: a copy of a real database directory (template 0:
 //!        closed after a checkpoint; template 1: copied while open with WAL frames not yet checkpointed) with one
-//!        file corrupted (edits: set:<off>:<hex> fill:<off>:<len>:<byte> trunc:<len> ext:<hex> copy:<from>:<to>:<len>,
-//!        joined by ';'), then Database::open + full scans + point lookups + writes + close, in a CHILD process
+//!        file corrupted (edits: set:<off>:<hex> fill:<off>:<len>:<byte> trunc:<len> ext:<hex> copy:<from>:<to>:<len>
+//!        find:<hex pattern>:<delta>:<hex> (bytes written delta behind the first occurrence of the pattern), joined by ';'), then Database::open + full scans + point lookups + writes + close, in a CHILD process
 //!        (`c23 worker`) so that aborts and hangs are observed (5 s watchdog, re-checked alone with 20 s)
-//! Modes: gen (with --lines), search (oracle only: any panic / abort / hang), worker (internal).
+//! Modes: gen (with --lines), search (oracle only: any panic / abort / hang), worker (internal),
+//! probe (development aid: --budget N corrupted databases, prints the outcome tally; C23_DEBUG=1 makes the
+//! worker print failing statements and panic backtraces).
 use std::collections::BTreeMap;
 use std::io::{BufRead, BufReader, Write};
 use std::path::{Path, PathBuf};
